@@ -28,6 +28,15 @@ Plan gen_c17(uint64_t seed, int tier)
     p.cfg["logger" + std::to_string(i) + "_sinks"] = mask[static_cast<size_t>(i)];
     p.cfg["logger" + std::to_string(i) + "_clock"] = 0;
   }
+  for (int i = 0; i < nsinks; ++i)
+  {
+    // one sink in five is a real FileSink whose FileEventNotifier callbacks report the closing of its file
+    if (Rng(seed ^ static_cast<uint64_t>(0xC17F + i)).chance(1, 5))
+    {
+      p.cfg["sink" + std::to_string(i) + "_type"] = 1;
+      p.cfg["sink" + std::to_string(i) + "_notifier"] = 3;
+    }
+  }
   fix_timescale(p);
   int nthreads = static_cast<int>(r.range(1, 3));
   p.threads.resize(static_cast<size_t>(nthreads));
@@ -252,9 +261,18 @@ Verdict judge_c17(Plan const& p, History const& h, RunInfoLite const& ri)
     v.detail = ri.where;
     return v;
   }
-  DeliveryRules rules;
-  rules.expect = [&m](Issued const& is, int sink) -> int
+  std::vector<int> sink_type(8, 0);
+  for (int i = 0; i < 8; ++i)
   {
+    sink_type[static_cast<size_t>(i)] = static_cast<int>(p.get("sink" + std::to_string(i) + "_type", 0));
+  }
+  DeliveryRules rules;
+  rules.expect = [&m, &sink_type](Issued const& is, int sink) -> int
+  {
+    if (sink_type[static_cast<size_t>(sink)] == 1)
+    {
+      return 0; // file sinks do not record writes (their files are judged below)
+    }
     if (is.result != 1)
     {
       return 0;
@@ -267,7 +285,7 @@ Verdict judge_c17(Plan const& p, History const& h, RunInfoLite const& ri)
     return d;
   }
   int nsinks = static_cast<int>(p.get("nsinks", 1));
-  uint64_t sink_lookups = 0, csv_scopes = 0;
+  uint64_t sink_lookups = 0, csv_scopes = 0, file_sinks_checked = 0, file_statements_checked = 0;
   uint64_t removals = 0, blocking = 0, recreated = 0, lookups = 0, sinks_destroyed = 0, sinks_kept = 0;
   // per slot: current mask (0 = removed)
   std::map<int, int64_t> cur_mask;
@@ -369,6 +387,87 @@ Verdict judge_c17(Plan const& p, History const& h, RunInfoLite const& ri)
       return violation("unreferenced_sink_not_destroyed", "sink " + std::to_string(s) +
                                                             " is referenced by no logger and no user but was not destroyed when the backend stopped");
     }
+    if (sink_type[static_cast<size_t>(s)] == 1)
+    {
+      // a real FileSink: the file as it was when after_close ran (else as it is at the end of the run, after the final flush)
+      // holds every statement routed to the sink, once, in each thread's order, and nothing else
+      Ev const* snap = nullptr;
+      uint64_t closes = 0, before_closes = 0;
+      for (auto const& e : h.ev)
+      {
+        if (e.type == EV_FILE_SNAP && e.a == s && (e.c == 1 || !snap || snap->c != 1))
+        {
+          snap = &e;
+        }
+        closes += e.type == EV_FILE_SNAP && e.a == s && e.c == 1;
+        before_closes += e.type == EV_NOTE && e.s == "before_close" && e.b == s;
+      }
+      if (destroyed && (closes != 1 || before_closes != 1))
+      {
+        return violation("file_close_callbacks_not_called_once", "sink " + std::to_string(s) + ": before_close " +
+                                                                   std::to_string(before_closes) + "x, after_close " + std::to_string(closes) + "x");
+      }
+      if (snap)
+      {
+        ++file_sinks_checked;
+        std::set<int64_t> seen;
+        std::map<int, uint64_t> last_invoke;
+        size_t pos = 0;
+        while (pos < snap->s.size())
+        {
+          size_t nl = snap->s.find('\n', pos);
+          if (nl == std::string::npos)
+          {
+            nl = snap->s.size();
+          }
+          std::string line = snap->s.substr(pos, nl - pos);
+          pos = nl + 1;
+          if (line.empty())
+          {
+            continue;
+          }
+          int64_t id = line[0] == '#' ? std::atoll(line.c_str() + 1) : -1;
+          auto it = m.issued.find(id);
+          if (it == m.issued.end() || line != it->second.expected)
+          {
+            return violation("garbled_line_in_file", "file of sink " + std::to_string(s) + ": '" + line.substr(0, 100) + "'");
+          }
+          if (!seen.insert(id).second)
+          {
+            return violation("duplicate_line_in_file", "id " + std::to_string(id) + " in the file of sink " + std::to_string(s));
+          }
+          if (!((m.mask_of_logger_at(it->second.logger, it->second.invoke_seq) >> s) & 1))
+          {
+            return violation("unexpected_delivery", "id " + std::to_string(id) + " in the file of sink " + std::to_string(s) +
+                                                      " which its logger does not use");
+          }
+          if (last_invoke.count(it->second.thread) && it->second.invoke_seq < last_invoke[it->second.thread])
+          {
+            return violation("statements_out_of_thread_order_in_file", "sink " + std::to_string(s) + " thread " + std::to_string(it->second.thread));
+          }
+          last_invoke[it->second.thread] = it->second.invoke_seq;
+        }
+        // Completeness is demanded of a file that was closed because its sink was destroyed ("they are all written before the
+        // logger, and any sink no longer referenced ..., is destroyed and its file closed"). Whether a sink that lives on has
+        // been *flushed* when the backend stops is C07's clause (and judged there, with removed loggers in its plans), not C17's.
+        for (int64_t id : m.issue_order)
+        {
+          Issued const& is = m.issued.at(id);
+          if (snap->c != 1 || is.result != 1 || is.kind == 1 || !((m.mask_of_logger_at(is.logger, is.invoke_seq) >> s) & 1))
+          {
+            continue;
+          }
+          if (!seen.count(id))
+          {
+            return violation("statement_missing_from_the_file_when_it_was_closed",
+                             "id " + std::to_string(id) + " of thread " + std::to_string(is.thread) + " (logger slot " +
+                               std::to_string(is.logger) + ") is not in the file of sink " + std::to_string(s) +
+                               " as it was when the sink closed it");
+          }
+          ++file_statements_checked;
+        }
+      }
+    }
     if (destroyed)
     {
       ++sinks_destroyed;
@@ -395,6 +494,8 @@ Verdict judge_c17(Plan const& p, History const& h, RunInfoLite const& ri)
   v.probes["csv_writer_scopes"] = csv_scopes;
   v.probes["sinks_destroyed"] = sinks_destroyed;
   v.probes["sinks_kept"] = sinks_kept;
+  v.probes["file_sinks_judged_by_their_file"] = file_sinks_checked;
+  v.probes["statement_file_pairs_checked"] = file_statements_checked;
   return v;
 }
 
